@@ -1,5 +1,291 @@
 package main
 
-import "regexp"
+// regexp-as-formula: for a concrete pattern and a subject of concrete length
+// whose bytes are terms, "r.MatchString(s)" is compiled to a Boolean term by
+// simulating the compiled regexp/syntax program over positions. Runes are
+// bytes: the caller must have established that every byte is ASCII.
 
-func regexpFormulaImpl(p *Path, r *regexp.Regexp, s []*Term) (*Term, bool) { return nil, false }
+import (
+	"regexp"
+	"regexp/syntax"
+	"sync"
+)
+
+var progCache sync.Map
+
+func compiledProg(r *regexp.Regexp) *syntax.Prog {
+	key := r.String()
+	if v, ok := progCache.Load(key); ok {
+		return v.(*syntax.Prog)
+	}
+	re, err := syntax.Parse(key, syntax.Perl)
+	if err != nil {
+		return nil
+	}
+	prog, err := syntax.Compile(re.Simplify())
+	if err != nil {
+		return nil
+	}
+	progCache.Store(key, prog)
+	return prog
+}
+
+// asciiOnly forks on "all bytes < 0x80" and reports which side we are on.
+func (p *Path) asciiOnly(s []*Term) bool {
+	all := tTrue
+	for _, b := range s {
+		all = p.tc.And(all, p.tc.Bin(OULt, b, Const(BV(8), 0x80)))
+	}
+	return p.branch(all)
+}
+
+func regexpFormulaImpl(p *Path, r *regexp.Regexp, s []*Term) (*Term, bool) {
+	prog := compiledProg(r)
+	if prog == nil {
+		return nil, false
+	}
+	if !p.asciiOnly(s) {
+		return nil, false
+	}
+	return p.matchFormula(prog, s, 0), true
+}
+
+func isWordByteTerm(p *Path, b *Term) *Term {
+	tc := &p.tc
+	c := func(v uint64) *Term { return Const(BV(8), v) }
+	in := func(lo, hi uint64) *Term { return tc.And(tc.Bin(OULe, c(lo), b), tc.Bin(OULe, b, c(hi))) }
+	return tc.Or(tc.Or(in('a', 'z'), in('A', 'Z')), tc.Or(in('0', '9'), tc.Eq(b, c('_'))))
+}
+
+// runeCond: does instruction i accept byte b (as an ASCII rune)?
+func runeCond(p *Path, i *syntax.Inst, b *Term) *Term {
+	tc := &p.tc
+	switch i.Op {
+	case syntax.InstRuneAny:
+		return tTrue
+	case syntax.InstRuneAnyNotNL:
+		return tc.Not(tc.Eq(b, Const(BV(8), '\n')))
+	}
+	fold := syntax.Flags(i.Arg)&syntax.FoldCase != 0
+	res := tFalse
+	add := func(lo, hi rune) {
+		if lo > 0x7F {
+			return
+		}
+		if hi > 0x7F {
+			hi = 0x7F
+		}
+		var t *Term
+		if lo == hi {
+			t = tc.Eq(b, Const(BV(8), uint64(lo)))
+		} else {
+			t = tc.And(tc.Bin(OULe, Const(BV(8), uint64(lo)), b), tc.Bin(OULe, b, Const(BV(8), uint64(hi))))
+		}
+		res = tc.Or(res, t)
+	}
+	rs := i.Rune
+	if len(rs) == 1 {
+		add(rs[0], rs[0])
+		if fold {
+			// simple ASCII case folding
+			r := rs[0]
+			if 'a' <= r && r <= 'z' {
+				add(r-32, r-32)
+			} else if 'A' <= r && r <= 'Z' {
+				add(r+32, r+32)
+			}
+		}
+		return res
+	}
+	for k := 0; k+1 < len(rs); k += 2 {
+		add(rs[k], rs[k+1])
+	}
+	return res
+}
+
+// matchFormula: unanchored search semantics of MatchString.
+func (p *Path) matchFormula(prog *syntax.Prog, s []*Term, _ int) *Term {
+	tc := &p.tc
+	n := len(s)
+	ninst := len(prog.Inst)
+	matched := tFalse
+	cur := make([]*Term, ninst)
+	for i := range cur {
+		cur[i] = tFalse
+	}
+	// emptyCond: condition for an empty-width assertion at position pos
+	emptyCond := func(op syntax.EmptyOp, pos int) *Term {
+		c := tTrue
+		if op&syntax.EmptyBeginText != 0 && pos != 0 {
+			return tFalse
+		}
+		if op&syntax.EmptyEndText != 0 && pos != n {
+			return tFalse
+		}
+		if op&syntax.EmptyBeginLine != 0 && pos != 0 {
+			c = tc.And(c, tc.Eq(s[pos-1], Const(BV(8), '\n')))
+		}
+		if op&syntax.EmptyEndLine != 0 && pos != n {
+			c = tc.And(c, tc.Eq(s[pos], Const(BV(8), '\n')))
+		}
+		if op&(syntax.EmptyWordBoundary|syntax.EmptyNoWordBoundary) != 0 {
+			before, after := tFalse, tFalse
+			if pos > 0 {
+				before = isWordByteTerm(p, s[pos-1])
+			}
+			if pos < n {
+				after = isWordByteTerm(p, s[pos])
+			}
+			boundary := tc.Not(tc.Eq(before, after))
+			if op&syntax.EmptyWordBoundary != 0 {
+				c = tc.And(c, boundary)
+			}
+			if op&syntax.EmptyNoWordBoundary != 0 {
+				c = tc.And(c, tc.Not(boundary))
+			}
+		}
+		return c
+	}
+	// addState: add pc with condition c to set at position pos, following
+	// epsilon edges. Conditions only grow by Or, so iterate to a fixpoint with
+	// a worklist (the program is small).
+	type vk struct {
+		pc int
+		c  *Term
+	}
+	var addv func(set []*Term, pc int, c *Term, pos int, visited map[vk]bool)
+	addv = func(set []*Term, pc int, c *Term, pos int, visited map[vk]bool) {
+		if c.IsFalse() || visited[vk{pc, c}] {
+			return
+		}
+		visited[vk{pc, c}] = true
+		set[pc] = tc.Or(set[pc], c)
+		in := &prog.Inst[pc]
+		switch in.Op {
+		case syntax.InstAlt, syntax.InstAltMatch:
+			addv(set, int(in.Out), c, pos, visited)
+			addv(set, int(in.Arg), c, pos, visited)
+		case syntax.InstCapture, syntax.InstNop:
+			addv(set, int(in.Out), c, pos, visited)
+		case syntax.InstEmptyWidth:
+			addv(set, int(in.Out), tc.And(c, emptyCond(syntax.EmptyOp(in.Arg), pos)), pos, visited)
+		}
+	}
+	add := func(set []*Term, pc int, c *Term, pos int, _ int) {
+		addv(set, pc, c, pos, map[vk]bool{})
+	}
+	for pos := 0; pos <= n; pos++ {
+		// unanchored: a match attempt may start at every position
+		add(cur, prog.Start, tTrue, pos, 0)
+		for pc := 0; pc < ninst; pc++ {
+			if prog.Inst[pc].Op == syntax.InstMatch {
+				matched = tc.Or(matched, cur[pc])
+			}
+		}
+		if pos == n {
+			break
+		}
+		next := make([]*Term, ninst)
+		for i := range next {
+			next[i] = tFalse
+		}
+		for pc := 0; pc < ninst; pc++ {
+			if cur[pc].IsFalse() {
+				continue
+			}
+			in := &prog.Inst[pc]
+			switch in.Op {
+			case syntax.InstRune, syntax.InstRune1, syntax.InstRuneAny, syntax.InstRuneAnyNotNL:
+				c := tc.And(cur[pc], runeCond(p, in, s[pos]))
+				add(next, int(in.Out), c, pos+1, 0)
+			}
+		}
+		cur = next
+	}
+	return matched
+}
+
+// singleRune: is the program "one rune from a class" (optionally captured)?
+func singleRune(prog *syntax.Prog) *syntax.Inst {
+	pc := prog.Start
+	var ri *syntax.Inst
+	for steps := 0; steps < 10; steps++ {
+		in := &prog.Inst[pc]
+		switch in.Op {
+		case syntax.InstCapture, syntax.InstNop:
+			pc = int(in.Out)
+		case syntax.InstRune, syntax.InstRune1, syntax.InstRuneAny, syntax.InstRuneAnyNotNL:
+			if ri != nil {
+				return nil
+			}
+			ri = in
+			pc = int(in.Out)
+		case syntax.InstMatch:
+			return ri
+		default:
+			return nil
+		}
+	}
+	return nil
+}
+
+// runeCond32: does instruction i accept the rune r (32-bit term)?
+func runeCond32(p *Path, i *syntax.Inst, r *Term) *Term {
+	tc := &p.tc
+	c := func(v rune) *Term { return Const(BV(32), uint64(uint32(v))) }
+	switch i.Op {
+	case syntax.InstRuneAny:
+		return tTrue
+	case syntax.InstRuneAnyNotNL:
+		return tc.Not(tc.Eq(r, c('\n')))
+	}
+	res := tFalse
+	rs := i.Rune
+	if len(rs) == 1 {
+		return tc.Eq(r, c(rs[0]))
+	}
+	for k := 0; k+1 < len(rs); k += 2 {
+		var t *Term
+		if rs[k] == rs[k+1] {
+			t = tc.Eq(r, c(rs[k]))
+		} else {
+			t = tc.And(tc.Bin(OULe, c(rs[k]), r), tc.Bin(OULe, r, c(rs[k+1])))
+		}
+		res = tc.Or(res, t)
+	}
+	return res
+}
+
+// replaceAllFuncSingle implements (*Regexp).ReplaceAllFunc for single-rune
+// patterns on symbolic bytes: rune by rune, forking on class membership.
+func (p *Path) replaceAllFuncSingle(caller *frame, r *regexp.Regexp, src []value, repl value) (value, bool) {
+	prog := compiledProg(r)
+	if prog == nil {
+		return nil, false
+	}
+	ri := singleRune(prog)
+	if ri == nil {
+		return nil, false
+	}
+	var out []value
+	s := mkStr(sliceBytes(src))
+	n := strLen(s)
+	pos := 0
+	for pos < n {
+		rn, size := p.decodeRune(strSlice(s, pos, n))
+		chunk := src[pos : pos+size]
+		if p.branch(runeCond32(p, ri, p.tc.Zext(rn, 32))) {
+			cp := make([]value, len(chunk))
+			copy(cp, chunk)
+			res := p.call(caller, repl, []value{cp}, nil).([]value)
+			out = append(out, res...)
+		} else {
+			out = append(out, chunk...)
+		}
+		pos += size
+	}
+	if out == nil {
+		out = []value{}
+	}
+	return out, true
+}
